@@ -40,6 +40,10 @@ def Val.isObject : Val → Bool
   | .nil | .B _ | .N _ | .S _ | .arr _ | .map _ | .host _ => true
   | _ => false
 
+def Val.isInvalid : Val → Bool
+  | .invalid => true
+  | _ => false
+
 /-- `convert(x)` for values that are not heap-allocated by the conversion (raw literal → object) -/
 def convertRaw : Val → Val
   | .invalid => .nil
